@@ -417,6 +417,8 @@ def theory_axioms(terms, extra_trig=False):
             elif n == "log":
                 ax.append(z3.Implies(a >= 1, x >= 0))
                 ax.append(z3.Implies(z3.And(a > 0, a <= 1), x <= 0))
+                ax.append(z3.Implies(a > 1, x > 0))
+                ax.append(z3.Implies(z3.And(a > 0, a < 1), x < 0))
             elif n == "arctan":
                 ax.append(z3.And(2 * x > -PI, 2 * x < PI))
                 has_pi = True
